@@ -49,7 +49,12 @@ ASSUMPTIONS = [
     'sigma_dot_explicit - the latter advects the reference temperature profile; semi-Lagrangian velocity; '
     'query - interpolation node; regridding cell bounds) is >= 3e-4 (normalised) from the kink at x and keeps '
     'its sign at all points x +- h v used by the difference; inputs are nudged (count in labels) until this holds; '
-    'on the kink only finiteness and adjointness are required',
+    'on the kink only finiteness and adjointness are required, with one exception: where the kink argument is '
+    'exactly zero by construction (upwind advection of a non-divergent state with uniform surface pressure: '
+    'sigma_dot == 0 everywhere) the jvp must also agree with the central finite difference within the difference '
+    "quotient's own O(h) convergence (jnp.maximum/minimum use 1/2 at a tie, which is the central-difference limit); "
+    'exact ties of maximum(minT, T_eq) and interpolation-node kinks are not reproducible / one-sided by convention '
+    'and stay at finiteness + adjointness',
     'grids have no node at a pole for vector operations and dynamics (equiangular_with_poles only for scalar '
     'transforms)',
     'interpolation nodes are strictly increasing; queries of the NaN-extrapolating interpolators stay inside the '
@@ -241,6 +246,12 @@ def check_point(eng, x, v, wseed, mode, h):
     info['kink_margin'] = float(np.min(np.abs(a0))) if a0.size else float('inf')
     info['kink_sides'] = (int(np.sum(a0 > 0)), int(np.sum(a0 < 0)))
   if mode != 'fd':
+    if getattr(eng, 'kink_fd', False):
+      det = _kink_fd_consistency(eng, x, v, jl, yl, yn, h)
+      if det is not None:
+        det['mode'] = mode
+        return det, info
+      info['kink_fd_checked'] = 1
     return None, info
   # (a) finite differences
   tangents = [('<all>', v, jl)]
@@ -282,6 +293,39 @@ def check_point(eng, x, v, wseed, mode, h):
                 'fd_h': float(fd1[j][tuple(idx)]) if jt[j].ndim else float(fd1[j]),
                 'fd_h/2': float(fd2[j][tuple(idx)]) if jt[j].ndim else float(fd2[j]), 'h': h}, info
   return None, info
+
+
+def _kink_fd_consistency(eng, x, v, jl, yl, yn, h):
+  """Exactly on a maximum/minimum-type kink (upwind velocity sign, Held-Suarez temperature floor) the code's
+  derivative convention (jnp.maximum / jnp.minimum: 1/2 at a tie) coincides with the limit of the *central* finite
+  difference, which is what the property states. The central difference converges only like O(h) there, so the
+  comparison is made against the difference quotient's own convergence: with D(4h), D(2h), D(h),
+  |Jv - D(h)| <= 2 max(|D(4h)-D(2h)|, |D(2h)-D(h)|) + rounding floor + 1e-6 scale, entry by entry
+  (for an error c h^p, p >= 1, the left side is at most the bracket). Interpolation-node kinks are not checked this
+  way: jnp.interp documents a one-sided convention there."""
+  D = []
+  ymag = [_absmax(a) for a in yl]
+  for hh in (4 * h, 2 * h, h):
+    fp = _leaves(eng.F(_axpy(x, hh, v)))
+    fm = _leaves(eng.F(_axpy(x, -hh, v)))
+    D.append([(a - b) / (2 * hh) for a, b in zip(fp, fm)])
+    ymag = [max(m, _absmax(a), _absmax(b)) for m, a, b in zip(ymag, fp, fm)]
+  eps = np.finfo(np.float64).eps
+  for j, name in enumerate(yn):
+    d1 = np.abs(D[0][j] - D[1][j])
+    d2 = np.abs(D[1][j] - D[2][j])
+    scale = max(_absmax(jl[j]), _absmax(D[2][j]))
+    floor = 100 * eps * (ymag[j] + 1e-6 * max(ymag)) / h
+    tol = 2 * np.maximum(d1, d2) + floor + 1e-6 * scale
+    err = np.abs(np.asarray(jl[j]) - D[2][j])
+    if np.any(err > tol):
+      idx = [int(i) for i in np.unravel_index(int(np.argmax(err - tol)), err.shape)] if err.ndim else []
+      pick = (lambda a: float(a[tuple(idx)]) if np.ndim(a) else float(a))   # noqa: E731
+      return {'what': 'on a max/min kink the jvp differs from the central finite difference beyond the difference '
+                      "quotient's own convergence", 'output_field': name, 'index': idx,
+              'jvp': pick(np.asarray(jl[j])), 'fd_4h': pick(D[0][j]), 'fd_2h': pick(D[1][j]), 'fd_h': pick(D[2][j]),
+              'tolerance': pick(tol), 'h': h, 'scale': scale}
+  return None
 
 
 class Ctx:
@@ -734,6 +778,7 @@ def _pe_terms_ctx(cfg_s):
       f = lambda s: eq.implicit_inverse(s, eta)   # noqa: E731
     linear = True
   eng = Engine(f, kink=kink, linear=linear)
+  eng.kink_fd = kink is not None   # upwind: maximum/minimum(w, 0) kinks -> central-FD consistency also on the kink
   mk = lambda d, amp, tangent, k=0: pe_state(grid, n, d, amp, tracers, with_time, tangent, nudge=k)   # noqa: E731
 
   def kink_x(inp):
@@ -899,6 +944,9 @@ def run_held_suarez(case):
     idx = tuple(int(i) for i in np.unravel_index(int(inp.get('node', 0)) % T.size, T.shape))
     hs_tie, m, exact = H.tie(x, idx)
     e2 = Engine(hs_tie.explicit_terms, jit=False, kink=lambda s, m=m: ((H.temperature(s) - m) / span).ravel())
+    # no central-FD consistency here (e2.kink_fd stays False): an exact floating-point tie of maximum(minT, T_eq)
+    # is not reproducible between the primal and the jvp evaluation (T_eq ends a rounding above or below minT),
+    # so the jvp legitimately equals one of the one-sided derivatives; only finiteness and adjointness are claimed
     detail, info = check_point(e2, x, H.state(inp['v'], 1.0, True), inp.get('wseed', 0), 'kink', 1e-5)
     out.units += 1
     labs.add('mode=kink')
